@@ -95,6 +95,7 @@ def run(M, rec, tier, seed, k, n):
             W.small_valid_steps(M, rec, rng, 2, before_case=on_case, seed=seed)
             W.symbolic_param_steps(M, rec, rng, symvals, 30, before_case=on_case)
             W.dm_steps(M, rec, rng, symvals, 60, before_case=on_case)
+            W.overlapping_steps(M, rec, rng, 40, before_case=on_case)
         else:
             W.numpy_steps(M, rec, rng, 6000, draws=3, opts_prob=0.15, before_case=on_case)
             W.symbolic_steps(M, rec, rng, symvals, 420, points=3, opts_prob=0.15, before_case=on_case)
@@ -105,6 +106,7 @@ def run(M, rec, tier, seed, k, n):
             W.small_valid_steps(M, rec, rng, 4, k, n, before_case=on_case, seed=seed + 1, kinds_full=False, only_n=4)
             W.symbolic_param_steps(M, rec, rng, symvals, 150, before_case=on_case)
             W.dm_steps(M, rec, rng, symvals, 500, before_case=on_case)
+            W.overlapping_steps(M, rec, rng, 300, before_case=on_case)
     finally:
         W.USER_KINDS["prob"] = 0.0
         mon.uninstall()
